@@ -427,19 +427,22 @@ func runC10(w *fw.Worker) {
 				continue
 			}
 			useAlias := aliased[lr] && r.Bool()
-			loc, lerr := c10Locate(tv, lr, &ch, useAlias)
+			// the field's type is looked up on a scratch value first: locating allocates the structs on the way, which
+			// must not happen for a leaf that is then left unfilled
+			probe, lerr := c10Locate(reflect.New(tt2).Elem(), lr, &ch, useAlias)
 			if lerr != nil {
 				w.Violation(i, "translated-field-not-found:"+ch.name, lerr.Error(), witness(map[string]any{"leaf": lr.String(), "translated": tt2.String()}))
 				return
 			}
 			v := gen.GenLeafValue(r, c, lf)
-			fwd, ferr := c10Forward(v, loc.Type(), lf)
+			fwd, ferr := c10Forward(v, probe.Type(), lf)
 			if ferr != nil {
 				w.Note(fmt.Sprintf("harness forward conversion gap: %v (chain %s leaf %s)", ferr, ch.name, lf.Name))
 				w.Count("forward_conversion_gaps", 1)
 				pat.WriteByte('-')
 				continue
 			}
+			loc, _ := c10Locate(tv, lr, &ch, useAlias)
 			loc.Set(fwd)
 			layer.Vals[lr] = v
 			filled = append(filled, fmt.Sprintf("%s(alias=%v)=%s", lr, useAlias, fmtVal(v)))
